@@ -425,7 +425,8 @@ Definition frame_resp (to_head : bool) (buf : bytes) : frp :=
 (* ------------------------------------------------------------------ *)
 (* re-serialisation by net/http (req.Write / resp.Write), at the level of what the
    peer parses back: headers come out sorted by name (stable); a request without
-   User-Agent gets net/http's default one, an empty User-Agent is dropped *)
+   User-Agent gets net/http's default one, an empty User-Agent is dropped; Pragma:
+   no-cache makes the parser add Cache-Control: no-cache *)
 
 Fixpoint leb_bytes (a b : bytes) : bool :=
   match a, b with
@@ -449,11 +450,23 @@ Definition ua_fix (hs : list header) : list header :=
   | Some _ => hs
   end.
 
+(* http.ReadRequest / ReadResponse (fixPragmaCacheControl): a message whose first Pragma
+   value is "no-cache" and that has no Cache-Control gets "Cache-Control: no-cache" *)
+Definition S_PRAGMA : bytes := [112;114;97;103;109;97]%N.
+Definition S_CC : bytes := [99;97;99;104;101;45;99;111;110;116;114;111;108]%N.      (* cache-control *)
+Definition S_NOCACHE : bytes := [110;111;45;99;97;99;104;101]%N.                    (* no-cache *)
+
+Definition pragma_fix (hs : list header) : list header :=
+  match hget S_PRAGMA hs, hget S_CC hs with
+  | Some v, None => if eqb_b v S_NOCACHE then (S_CC, S_NOCACHE) :: hs else hs
+  | _, _ => hs
+  end.
+
 Definition reser_req (m : sem_req) : sem_req :=
-  mkReq (r_method m) (r_target m) (r_host m) (sort_headers (ua_fix (r_headers m))) (r_chunked m) (r_body m).
+  mkReq (r_method m) (r_target m) (r_host m) (sort_headers (ua_fix (pragma_fix (r_headers m)))) (r_chunked m) (r_body m).
 
 Definition reser_resp (p : sem_resp) : sem_resp :=
-  mkResp (p_status p) (sort_headers (p_headers p)) (p_chunked p) (p_body p).
+  mkResp (p_status p) (sort_headers (pragma_fix (p_headers p))) (p_chunked p) (p_body p).
 
 (* what the client-side parser makes of resp.Write's output: for a reply to HEAD that
    carries Transfer-Encoding: chunked, net/http's writer emits a stray CRLF after the
@@ -527,6 +540,38 @@ Fixpoint run (its : list citem) (s : st) : st * endk :=
   end.
 
 Definition st0 (replies : list (list bytes)) : st := mkSt [] replies 0 false [] [] 0.
+
+(* req.Write streams: once the header block of a request is complete it is written to the
+   backend and the body follows as it arrives.  For a request that completes this is the
+   same as forwarding it whole; when the client stops inside the body (closes, or gives
+   up) the backend is left with a request whose body is cut short.  [head_of buf] is that
+   request (without body) when the buffer holds a complete, acceptable header block. *)
+Definition head_of (buf : bytes) : option sem_req :=
+  match find_crlf2 buf with
+  | None => None
+  | Some i =>
+      match split_crlf (firstn i buf) with
+      | [] => None
+      | l0 :: ls =>
+          match parse_reqline l0, parse_headers ls with
+          | Some (m, t), Some hs =>
+              let host := match hget S_HOST hs with Some v => v | None => [] end in
+              let hs' := filter (fun h => negb (eqb_b (fst h) S_HOST)) (non_framing hs) in
+              match body_kind_of hs (BKLen 0) with
+              | BKBad => None
+              | BKLen _ => Some (mkReq m t host hs' false [])
+              | BKChunked => Some (mkReq m t host hs' true [])
+              end
+          | _, _ => None
+          end
+      end
+  end.
+
+Definition partial_forward (s : st) (e : endk) : option sem_req :=
+  match e with
+  | EPartial | EGaveUp => match head_of (s_buf s) with Some m => Some (reser_req m) | None => None end
+  | _ => None
+  end.
 
 (* cut a stream into segments of the given lengths *)
 Fixpoint cut (lens : list N) (l : bytes) : list bytes :=
